@@ -1421,7 +1421,7 @@ func (reg *VarTypeRegistry) Init(src *Pkgsrc) {
 		sitesMk := src.LoadMkExisting(filename)
 		if sitesMk != nil {
 			sitesMk.ForEach(func(mkline *MkLine) {
-				if mkline.IsVarassign() && hasPrefix(mkline.Varname(), "MASTER_SITE_") &&
+				if mkline.IsVarassign() && matches(mkline.Varname(), `^MASTER_SITE_[A-Z0-9_]*$`) &&
 					!reg.IsDefinedExact(mkline.Varname()) {
 					reg.syslist(mkline.Varname(), BtFetchURL)
 				}
